@@ -551,6 +551,22 @@ func esc(l string) string {
 	return strings.NewReplacer(":", `\:`, "*", `\*`, "+", `\+`, "?", `\?`, "<", `\<`, ">", `\>`, "(", `\(`, ")", `\)`).Replace(l)
 }
 
+// lowerHex writes the hex digits of every percent-escape in lower case
+func lowerHex(s string) string {
+	b := []byte(s)
+	for i := 0; i+2 < len(b); i++ {
+		if b[i] == '%' {
+			for j := i + 1; j <= i+2; j++ {
+				if b[j] >= 'A' && b[j] <= 'F' {
+					b[j] += 'a' - 'A'
+				}
+			}
+			i += 2
+		}
+	}
+	return string(b)
+}
+
 func wireEsc(s string) string {
 	return strings.ReplaceAll((&url.URL{Path: s}).EscapedPath(), "%2F", "/")
 }
@@ -635,6 +651,9 @@ func genRandom(t *rapid.T) Case {
 		return c
 	}
 	c.Path = wireEsc(p)
+	if c.Unesc && rapid.IntRange(0, 2).Draw(t, "lowerhex") == 0 {
+		c.Path = lowerHex(c.Path) // "%c3%a9" is the same octets as "%C3%A9" (RFC 3986 2.1)
+	}
 	c.Want = vals
 	c.Expect, c.Variant = "match", "base"
 	if !c.Unesc {
